@@ -192,6 +192,21 @@ def run_shard(shard):
         # a wrong old key must fail
         text, slots = build("hash2", ("secret", "plain"), okey)
         check_wrong_key(st, wd, kf, text)
+        # several files in ONE invocation (same anchor names in both): every
+        # file must come out as if it had been rotated alone
+        if lo == 0:
+            docs = anchored_docs(okey)
+            grid = [build("hash2", ("secret", "folded"), okey),
+                    build("list3", ("plain", "secret", "null"), okey),
+                    build("hash2", ("plain", "int"), okey)]
+            files = [(lab, text, slots, classes)
+                     for lab, text, slots, classes in docs]
+            files += [("grid%d" % i, t, sl, []) for i, (t, sl) in
+                      enumerate(grid)]
+            for first in files:
+                for second in files:
+                    for backup in (False, True):
+                        check_multi(st, wd, kf, [first, second], backup)
     st.sample({"case": label, "file": text})
     return st
 
@@ -203,7 +218,7 @@ def rotate(wd, kf, target, backup, real, oldkeys=None):
             "--newpublickey=" + kf["newpub"], "--eyaml=" + STUB]
     if backup:
         argv.append("--backup")
-    argv.append(target)
+    argv += target if isinstance(target, list) else [target]
     if real:
         return cli.run("eyaml-rotate-keys", argv, cwd=wd), None
     stub = fake_eyaml.InProcess()
@@ -227,21 +242,45 @@ def is_secret_kind(kind):
     return kind in ("secret", "folded", "spaced")
 
 
+def check_multi(st, wd, kf, files, backup):
+    """Several files given to one invocation."""
+    for name in os.listdir(wd):
+        if name.startswith("target") or name.startswith("multi"):
+            os.unlink(os.path.join(wd, name))
+    targets = []
+    for i, (label, text, slots, classes) in enumerate(files):
+        path = os.path.join(wd, "multi%d.yaml" % i)
+        cli.write(path, text)
+        targets.append(path)
+    res, log = rotate(wd, kf, targets, backup, False)
+    for i, (label, text, slots, classes) in enumerate(files):
+        judge(st, wd, kf, "multi[%d of %s]:%s" % (
+            i, "+".join(f[0] for f in files), label), text, slots, classes,
+              backup, False, targets[i], res, None)
+
+
 def check(st, wd, kf, label, text, slots, classes, backup, real):
-    st.evaluations += 1
     for name in os.listdir(wd):
         if name.startswith("target"):
             os.unlink(os.path.join(wd, name))
     target = os.path.join(wd, "target.yaml")
     cli.write(target, text)
-    case = {"case": label, "file": text, "backup": backup, "real": real}
     try:
-        before = corpus.load(text)
+        corpus.load(text)
     except corpus.LoadError:
         st.extra["unloadable_generated_document"] += 1
         return
-    secrets = [s for s in slots if is_secret_kind(s[1])]
     res, log = rotate(wd, kf, target, backup, real)
+    judge(st, wd, kf, label, text, slots, classes, backup, real, target, res,
+          log)
+
+
+def judge(st, wd, kf, label, text, slots, classes, backup, real, target, res,
+          log):
+    st.evaluations += 1
+    case = {"case": label, "file": text, "backup": backup, "real": real}
+    before = corpus.load(text)
+    secrets = [s for s in slots if is_secret_kind(s[1])]
     st.transitions += 1
     st.validated += 1
     st.states += 1
